@@ -208,6 +208,13 @@ def make_run(W, shape, known_active=None, replay_info=None):
         else:
             ctx.pc.append(kappa > crash.n)
         ctx.literals += 1
+        if scen == "first" and shape.get("then_register") is not None:
+            # the function is changed after the interrupted first build: whatever state the interrupt left, the change must take effect
+            try:
+                ov.register(hs[shape["then_register"]])
+                clean_sets = [list(base) + [shape["then_register"]]]
+            except Exception as e:  # noqa: BLE001
+                what = (what or "") + " / register afterwards: " + type(e).__name__
         listed = None
         if scen == "rebuild":
             # interrupted register(): the registration either took effect (the method is listed) or it did not; every probe must then follow
@@ -387,6 +394,7 @@ def gen_shapes(tier, seed):
     for methods in ([0, 1, 2], [2, 1, 0, 3], [4, 0, 2, 3]):
         for arg in ([0, False], [1, True], [4, False]):
             scen.append(dict(scenario="first", methods=methods, arg=arg))
+    scen.append(dict(scenario="first", methods=[0, 2], arg=[0, False], then_register=1))
     scen.append(dict(scenario="rebuild", methods=[0, 2], late=1))
     scen.append(dict(scenario="rebuild", methods=[2, 1, 3], late=0))
     scen.append(dict(scenario="rebuild", methods=[4, 2], late=5))
@@ -394,7 +402,7 @@ def gen_shapes(tier, seed):
         for arg in ([0, False], [1, True], [4, False]):
             scen.append(dict(scenario="miss", methods=methods, arg=arg))
     if tier == "quick":
-        scen = [s for i, s in enumerate(scen) if i in (1, 3, 8, 9, 10, 12, 16)]
+        scen = [s for i, s in enumerate(scen) if i in (1, 3, 8, 9, 10, 11, 13, 17)]
     for s in scen:
         if tier == "quick":
             s["concrete_hierarchy"] = conc
